@@ -14,9 +14,8 @@ cleanup() { git -C /repo worktree remove --force "$WT" 2>/dev/null; rm -rf "$WT"
 trap cleanup EXIT
 cd "$WT" || exit 2
 DEMO=$(ls "$SRC" | grep -E '^demo.*\.go$' | head -1)
-DEST=$(grep -oE "cp [^ ]*$DEMO +[^ ]+" "$SRC/HOWTO.txt" | head -1 | awk '{print $3}' | sed -E 's#^<[^>]*>/##; s#^/tmp/mut/[A-Z0-9]+/##')
-if [ -z "$DEST" ]; then DEST=$(grep -oE '[a-zA-Z0-9_/.-]+_test\.go' "$SRC/HOWTO.txt" | grep '/' | grep -v '^/tmp' | head -1); fi
-CMD=$(grep -E '^\s*go test ' "$SRC/HOWTO.txt" | head -1 | sed 's/^\s*//')
+DEST=$(grep -oE '(<[^>]*>/)?[a-zA-Z0-9_/.-]+_test\.go' "$SRC/HOWTO.txt" | sed -E 's#^<[^>]*>/##' | grep '/' | grep -v '^/' | head -1)
+CMD=$(grep -oE "go test .*" "$SRC/HOWTO.txt" | head -1 | sed -E 's/[[:space:]]+$//')
 if [ -z "$DEST" ] || [ -z "$CMD" ]; then echo "CANNOT PARSE HOWTO ($DEST | $CMD)"; exit 2; fi
 echo "demo -> $DEST ; cmd: $CMD"
 if ! git apply "$SRC/patch.diff"; then echo "RESULT $ID: patch does not apply to HEAD"; exit 1; fi
